@@ -474,6 +474,32 @@ theorem inherited_table_retarget_stale :
       = some (read cexSpec numSem 1 (construct numSem [] (fun p => some p) 500)).2 := by
   decide
 
+/-- class 0 = a nitime class owning the one-time name 0; class 1 = a PLAIN mix-in (derives from `object` only) owning
+    the name 1; class 2 = the user subclass `class U(X, Mix)`.  A walk of the MRO that skips the classes "outside
+    the reset protocol" does not visit class 1. -/
+def mixHier : Hier :=
+  { mro := fun c => if c = 2 then [2, 0, 1] else [c], own := fun c => if c = 2 then [] else [c],
+    visited := fun c => c != 1 }
+
+/-- a `U` object: both results read, then re-targeted; what a further read of `g` returns -/
+def readMix (src : NameSource) (g : Nat) : Option (Option Nat) :=
+  ((srun src mixHier numSem
+      [.new 0 (cexObj 2 3), .on 0 (.read 0), .on 0 (.read 1), .on 0 (.retarget [] [] (fun _ => none) 500)]
+      Proc.empty).obj 0).map fun ob => (read ob.spec numSem g ob.st).2
+
+/-- COUNTEREXAMPLE (seed C14-16).  A per-call walk of the MRO that visits only SOME of its classes is not a safe
+    name source: the result whose getter lives in a skipped class (a plain mix-in of a user subclass) survives
+    `set_input` with the value computed for the old input, while the results of the visited classes — all of
+    nitime's own — are fine, and the unfiltered walk forgets both.  The translator emits `walkFiltered` whenever
+    the loop over the MRO in `ResetMixin.reset` can skip a class (`mro_walk_filters`), which breaks
+    `reset_name_source_safe`. -/
+theorem filtered_walk_mixin_stale :
+    NameSource.walkFiltered.safe = false ∧
+    readMix .walkFiltered 1 ≠ some (read cexSpec numSem 1 (construct numSem [] (fun p => some p) 500)).2 ∧
+    readMix .walkFiltered 0 = some (read cexSpec numSem 0 (construct numSem [] (fun p => some p) 500)).2 ∧
+    readMix .walkPerCall 1 = some (read cexSpec numSem 1 (construct numSem [] (fun p => some p) 500)).2 := by
+  decide
+
 def corrObj (c x : Nat) : Obj Nat Nat :=
   { cls := c, spec := spec_CorrelationAnalyzer.resolve [], st := construct numSem [] (fun p => some p) x }
 
